@@ -9,7 +9,7 @@ import c02
 PROP = 'C04'
 MODEL_OPS = 'FitModel.rank_m (argsort of chi2), fit2_pkg / fit3_pkg per-model results'
 RULE = ('packages as in C01/C02 with 1-8 models, some models duplicated under different names (exact chi2 ties) and confidence-1 limits '
-        '(models driven to chi2 >= 1e30), fitted through Fitter.fit without selection; rows compared by model index with the per-model results of the model, '
+        '(models driven to chi2 >= 1e30), fitted through Fitter.fit without selection, in half of the cases after the same Fitter has fitted 1-2 other sources; rows compared by model index with the per-model results of the model, '
         'the chi2 sequence position-wise, the order against rank_m of the same chi2 values (tie groups as multisets). non-trivial = at least 2 models with distinct finite chi2.')
 EXHAUSTIVE = {'quick': False, 'thorough': False}
 ASSUMPTIONS = ['np.argsort is any sorting permutation: order inside exact tie groups is not compared'] + c01.ASSUMPTIONS
@@ -42,6 +42,9 @@ def generate(tier, seed):
         rng.shuffle(order)
         c['names'] = [c['names'][i] for i in order]
         c['flux'] = [c['flux'][i] for i in order]
+        # in half of the cases the Fitter has already fitted 1-2 other sources (rows must still describe one model each)
+        if k % 2:
+            c['warmup'] = [fitcase.gen_source(rng, len(c['wav']), min_fitted=2 if mode == '2d' else 1) for _ in range(rng.randint(1, 2))]
         cases.append(c)
     return cases
 
